@@ -126,6 +126,8 @@ def key_of(idx):
         return intern(idx.origin)
     if isinstance(idx, slice):
         return ("slice", idx.start, idx.stop, idx.step)
+    if hasattr(idx, "origin") and not isinstance(idx, PyObj):
+        return intern(idx.origin)
     return idx
 
 
